@@ -292,6 +292,7 @@ func runHarness(ld *loaded, h harnessRef, cfg *Config, known map[string]bool, de
 				res.Aborted = fmt.Sprintf("engine panic: %v\n%s", r, debug.Stack())
 			}
 		}
+		retireEngine(e)
 		res.Obligations = e.Obligations
 		res.Inputs = len(e.Inputs)
 		res.Stats = e.StatsCopy()
